@@ -648,6 +648,11 @@ impl Run {
                 } else if let (3, Some((t, lo, n))) = (*beyond, hole) {
                     self.classes.hit("purge_into_hole");
                     (t, lo + pick(*pos, n.min(1 << 20) as usize) as u64)
+                } else if *beyond == 5 && live.len() >= 2 {
+                    // a newer term at a live index below the last one: the entries above it stay
+                    self.classes.hit("purge_inside_newer_term");
+                    let t = st.last.map(|l| l.0).unwrap_or(1).max(live.last().unwrap().0);
+                    (t.saturating_add(1), live[pick(*pos, live.len() - 1)].1)
                 } else if let (4, Some((t, i))) = (*beyond, st.last) {
                     // a snapshot of a newer leader that ends exactly at our last index
                     self.classes.hit("purge_at_last_index_newer_term");
